@@ -23,6 +23,9 @@ type probe struct {
 var probes = []probe{
 	{"app/core/hydra/swamp/swamp.go", "", "New", `zzsimrt.ProbeAdd("swamp_live:"+name.Get(), 1)`},
 	{"app/core/hydra/swamp/swamp.go", "swamp", "sendClosedEvent", `zzsimrt.ProbeAdd("swamp_live:"+s.name.Get(), -1)`},
+	// a cooperative scheduling point ("buggify"): whatever a request decided before it takes a record's guard is
+	// what a concurrent request can invalidate, so runs may preempt right here with a high probability
+	{"app/core/hydra/swamp/treasure/guard/guard.go", "guard", "StartTreasureGuard", `zzsimrt.HotYield()`},
 }
 
 // applyProbes inserts the probes. A missing anchor is an infrastructure
